@@ -142,7 +142,7 @@ def build(rng):
     return dict(interval=interval, lat=lat, script=script, pat=tuple(pat), horizon=now + 2.5, empties=empties, late_ev=late_ev)
 
 
-_RIGS = [0]
+_RIGS = [0, 0]
 
 
 class Run:
@@ -163,6 +163,7 @@ class Run:
         self.counter = 0
         self.unknown_unsubs = 0
         self.staged = False
+        self.own_tasks = []
 
     def setup(self):
         SV = self.SV
@@ -183,7 +184,14 @@ class Run:
             svc.stop_announce(self.prot.announcer)
             self.staged = True
         for g, interval in self.sc["interval"].items():
-            eg = SV.SimpleEventgroup(svc, id=g, interval=interval)
+            _RIGS[1] += 1
+            if interval and _RIGS[1] % 3 == 0:
+                # the application runs the cyclic rounds itself: an eventgroup built without an interval and the documented
+                # public coroutine started as a task of its own
+                eg = SV.SimpleEventgroup(svc, id=g)
+                self.own_tasks.append(self.h.loop.create_task(eg.cyclic_notify(interval)))
+            else:
+                eg = SV.SimpleEventgroup(svc, id=g, interval=interval)
             for ev in GROUPS[g]:
                 if ev != self.sc.get("late_ev"):
                     eg.values[ev] = b"init" + bytes([ev])
@@ -295,6 +303,7 @@ def judge(ctx, sc, seed, replay):
     ctx.count("scripts")
     if run.staged:
         ctx.count("services_announced_once_before_their_eventgroups_were_registered")
+    ctx.count("eventgroups_whose_cyclic_rounds_the_application_started_itself", len(run.own_tasks))
     ctx.count("unsubscribe_of_unsubscribed_endpoint", run.unknown_unsubs)
     if L:
         ctx.count("latency_scripts")
